@@ -95,3 +95,80 @@ def oracle_runtime(R, tier, seed):
         if diffs: O2["failures"].append({"key": "C20:%s:%s" % (name, sorted(diffs)[0].replace(" ", "-")), "case": {"model": name}, "differences": {k: dict(list(v.items())[:5]) for k, v in diffs.items()}})
         else: O2["ok"] += 1
         R.mark("c20", name)
+
+
+def oracle_rejections(R, tier, seed):
+    """the property's own list, stated directly on the implementation (no model): each unsupported or inconsistent input must
+    raise, each unknown key must warn, and the corresponding well-formed input must be accepted"""
+    import warnings as W
+    from openaerostruct.geometry.utils import generate_mesh
+    from openaerostruct.geometry.geometry_group import Geometry, build_sections
+    from openaerostruct.aerodynamics.aero_groups import AeroPoint
+    from openaerostruct.structures.struct_groups import SpatialBeamAlone
+    from openaerostruct.integration.aerostruct_groups import AerostructGeometry
+    O = R.oracle("documented-rejections-and-warnings")
+    rng = gen.stable_rng(seed, "c20rej")
+    mesh = gen.rand_mesh(rng, 2, 3, "left"); fullm = gen.rand_mesh(rng, 2, 3, "full")
+
+    def outcome(fn):
+        with W.catch_warnings(record=True) as w:
+            W.simplefilter("always")
+            try:
+                fn(); return None, [str(x.message) for x in w]
+            except Exception as e:      # noqa
+                return type(e).__name__, [str(x.message) for x in w]
+
+    def setup(group):
+        def f():
+            p = om.Problem(reports=False); p.model.add_subsystem("g", group()); p.setup()
+        return f
+
+    def wb(**kw):
+        s = gen.wingbox_surface(mesh)
+        for k in ("skin_thickness_cp", "spar_thickness_cp"): s.pop(k, None)
+        s.update(kw); return s
+    aero_s = lambda m, sym, ground: dict(aero.aero_surface(m, "w", sym), **({"groundplane": True} if ground else {}))
+    sec = lambda n, **kw: dict({"name": "ms", "is_multi_section": True, "num_sections": n, "symmetry": True, "S_ref_type": "wetted", "root_chord": 1.0, "nx": 2, "meshes": "gen-meshes",
+                                 "ny": np.array([3] * n), "taper": np.ones(n), "span": np.ones(n), "sweep": np.zeros(n), "sec_name": ["s%d" % i for i in range(n)]}, **kw)
+    must_raise = [
+        ("ground effect without symmetry", setup(lambda: AeroPoint(surfaces=[aero_s(fullm, False, True)]))),
+        ("even num_y requested from the mesh generator", lambda: generate_mesh({"num_x": 2, "num_y": 6, "wing_type": "rect", "symmetry": True})),
+        ("unknown wing type", lambda: generate_mesh({"num_x": 2, "num_y": 5, "wing_type": "elliptical", "symmetry": True})),
+        ("unknown structural model type (SpatialBeamAlone)", setup(lambda: SpatialBeamAlone(surface=dict(gen.tube_surface(mesh), fem_model_type="shell")))),
+        ("unknown structural model type (AerostructGeometry)", setup(lambda: AerostructGeometry(surface=dict(gen.tube_surface(mesh), fem_model_type="shell")))),
+        ("only the skin thickness distribution (SpatialBeamAlone)", setup(lambda: SpatialBeamAlone(surface=wb(skin_thickness_cp=np.array([0.01, 0.02]))))),
+        ("only the spar thickness distribution (SpatialBeamAlone)", setup(lambda: SpatialBeamAlone(surface=wb(spar_thickness_cp=np.array([0.005, 0.01]))))),
+        ("only the skin thickness distribution (AerostructGeometry)", setup(lambda: AerostructGeometry(surface=wb(skin_thickness_cp=np.array([0.01, 0.02]))))),
+        ("only the spar thickness distribution (AerostructGeometry)", setup(lambda: AerostructGeometry(surface=wb(spar_thickness_cp=np.array([0.005, 0.01]))))),
+        ("multi-section ny list of the wrong length", lambda: build_sections(sec(2, ny=np.array([3, 3, 3])))),
+        ("multi-section taper list of the wrong length", lambda: build_sections(sec(2, taper=np.ones(1)))),
+        ("multi-section span list of the wrong length", lambda: build_sections(sec(3, span=np.ones(2)))),
+        ("multi-section sweep list of the wrong length", lambda: build_sections(sec(2, sweep=np.zeros(3)))),
+        ("multi-section name list of the wrong length", lambda: build_sections(sec(2, sec_name=["a"]))),
+    ]
+    must_accept = [
+        ("ground effect with symmetry", setup(lambda: AeroPoint(surfaces=[aero_s(mesh, True, True)]))),
+        ("odd num_y, rect", lambda: generate_mesh({"num_x": 2, "num_y": 5, "wing_type": "rect", "symmetry": True})),
+        ("CRM variant", lambda: generate_mesh({"num_x": 2, "num_y": 5, "wing_type": "CRM:alpha_2.75", "symmetry": True})),
+        ("both thickness distributions (SpatialBeamAlone)", setup(lambda: SpatialBeamAlone(surface=wb(skin_thickness_cp=np.array([0.01, 0.02]), spar_thickness_cp=np.array([0.005, 0.01]))))),
+        ("tube (AerostructGeometry)", setup(lambda: AerostructGeometry(surface=gen.tube_surface(mesh)))),
+        ("multi-section lists of the right length", lambda: build_sections(sec(2))),
+    ]
+    must_warn = [
+        ("unknown mesh-dict key", lambda: generate_mesh({"num_x": 2, "num_y": 5, "wing_type": "rect", "symmetry": True, "numy": 7}), "numy"),
+        ("unknown surface key (Geometry)", setup(lambda: Geometry(surface=dict(gen.tube_surface(mesh), twist=np.zeros(2)))), "twist"),
+        ("unknown surface key (AerostructGeometry)", setup(lambda: AerostructGeometry(surface=dict(gen.tube_surface(mesh), Thickness_cp=np.zeros(2)))), "Thickness_cp"),
+    ]
+    for what, fn in must_raise:
+        exc, msgs = outcome(fn); O["cases"] += 1
+        if exc is None: O["failures"].append({"key": "C20:accepted-silently:" + what, "case": {"input": what}, "observed": "no exception", "warnings": msgs[:3]})
+        else: O["ok"] += 1
+    for what, fn in must_accept:
+        exc, msgs = outcome(fn); O["cases"] += 1
+        if exc is not None: O["failures"].append({"key": "C20:valid-input-rejected:" + what, "case": {"input": what}, "observed": exc})
+        else: O["ok"] += 1
+    for what, fn, key in must_warn:
+        exc, msgs = outcome(fn); O["cases"] += 1
+        if not any(("`%s`" % key) in m for m in msgs): O["failures"].append({"key": "C20:no-warning:" + what, "case": {"input": what, "key": key}, "observed": [exc, msgs[:3]]})
+        else: O["ok"] += 1
+    R.mark("c20rej")
